@@ -113,14 +113,33 @@ func (d *EpochDriver) synth(height uint64, as *appstate.AppState, sc collector.S
 	newStates := map[common.Address]state.IdentityState{}
 	count := 0
 	flipNo := 0
+	// node identities (they own the proposing replicas) always pass, so that proposed blocks
+	// keep coming; the set is part of the world configuration every replica shares
+	isNode := map[common.Address]bool{}
+	for _, n := range w.Nodes {
+		isNode[n.Addr] = true
+	}
+	pickNext := func(e ent) (state.IdentityState, uint64, bool) {
+		opts, ok := synthNext[e.id.State]
+		if !ok {
+			return 0, 0, false
+		}
+		hv := h64(seed, height, e.addr, 'S')
+		ns := opts[hv%uint64(len(opts))]
+		if isNode[e.addr] && !ns.NewbieOrBetter() {
+			ns = state.Verified
+			if e.id.State == state.Human {
+				ns = state.Human
+			}
+		}
+		return ns, hv, true
+	}
 	// plan first: like the real ceremony, an epoch in which nobody would be validated is a
 	// failed validation and must not touch the state
 	planned := 0
 	for _, e := range ids {
-		if opts, ok := synthNext[e.id.State]; ok {
-			if opts[h64(seed, height, e.addr, 'S')%uint64(len(opts))].NewbieOrBetter() {
-				planned++
-			}
+		if ns, _, ok := pickNext(e); ok && ns.NewbieOrBetter() {
+			planned++
 		}
 	}
 	if planned == 0 {
@@ -128,12 +147,10 @@ func (d *EpochDriver) synth(height uint64, as *appstate.AppState, sc collector.S
 			NonValidatedStakes: nonValidated, Failed: true}
 	}
 	for _, e := range ids {
-		opts, ok := synthNext[e.id.State]
+		ns, hv, ok := pickNext(e)
 		if !ok {
 			continue // Undefined, Killed: never come back through validation
 		}
-		hv := h64(seed, height, e.addr, 'S')
-		ns := opts[hv%uint64(len(opts))]
 		missed := !ns.NewbieOrBetter() && hv%3 == 0
 		newStates[e.addr] = ns
 		val := ceremony.VerifEpochValue{
